@@ -89,3 +89,12 @@ Proof. vm_compute. reflexivity. Qed.
 Example c19_8 : fst (run1 MW [] [OSetvbuf VFull None; OWrite [[97;98;99]]; OSetvbuf VNo None; OWrite [[100]]; OClose])
                 = [97;98;99;100].
 Proof. vm_compute. reflexivity. Qed.
+(* a lines iterator obtained before the close: its later steps raise (nothing of the read-ahead
+   comes back), as the cursor model says of any operation on a closed handle *)
+Example iter_after_close :
+  snd (run1 MR [108;49;10;108;50;10;108;51;10] [ORead [FCount 1]; OLines 1; ONext 1; OClose; ONext 2; ONext 1])
+  = [RVals [VStr [108]]; RVals [VStr [49]]; RVals [VStr [108;50]]; RTrue; RRaise; RRaise]
+  /\ spec_results false [108;49;10;108;50;10;108;51;10] (snd (s_open MR []))
+       [ORead [FCount 1]; OLines 1; ONext 1; OClose; ONext 2; ONext 1]
+     = [RVals [VStr [108]]; RVals [VStr [49]]; RVals [VStr [108;50]]; RTrue; RRaise; RRaise].
+Proof. vm_compute. split; reflexivity. Qed.
